@@ -310,10 +310,11 @@ impl Database {
 
         // The transaction counter in the header is as old as the last checkpoint: ids handed out
         // since then are only known from the log and must not be handed out again.
+        // (The header field holds the next id to hand out, see TransactionCoordinator::begin.)
         if let Some(max_logged) = analysis.lsn_chains.keys().next_back().copied() {
             let mut pager = self.pager.write();
-            if max_logged > pager.get_last_created_transaction() {
-                pager.set_last_created_transaction(max_logged);
+            if max_logged + 1 > pager.get_last_created_transaction() {
+                pager.set_last_created_transaction(max_logged + 1);
             }
         }
 
